@@ -279,7 +279,7 @@ def run_check(chk, tier, seed, replay=None):
 
     # triage: replay each violation three times from its file, in fresh processes, bypassing the property library
     confirmed, flaky = [], []
-    rdir = os.path.join(ROOT, "replays", pid)
+    rdir = os.path.join(ROOT, "replays", pid) if REPO == "/repo" else os.path.join(BUILD, "replays", pid)   # a scratch tree keeps its counterexamples with its build
     seen_files = set()
     for desc, f in violations:
         if not f or not os.path.exists(f):
@@ -361,6 +361,7 @@ def run_check(chk, tier, seed, replay=None):
     if timeouts:
         log(f"INCONCLUSIVE: {len(timeouts)} worker(s) hit the time budget; their partial statistics are included")
     if confirmed:
+        confirmed.sort(key=lambda df: 0 if (df[1] and os.path.exists(df[1])) else 1)   # reports that come with a replay file first
         for desc, f in confirmed:
             log("violation: " + desc)
             print(f"VIOLATION property={pid} replay={f}")
